@@ -163,6 +163,13 @@ pub fn hostile_dir_case(a: &Args, idx: u64, acc: &mut Acc) {
         prepared.push("symlink 'link_to_file' -> file 'plain.txt'");
     }
     let root = VfsPath::new(PhysicalFS::new(&root_dir));
+    // half of the cases drive the async port over the same prepared directory (its walk_dir stream, metadata and
+    // read_dir paths meet the same dangling links and undecodable names)
+    let use_async = rng.chance(1, 2);
+    let aroot = vfs::async_vfs::AsyncVfsPath::new(vfs::async_vfs::AsyncPhysicalFS::new(&root_dir));
+    if use_async {
+        prepared.push("driven through AsyncPhysicalFS");
+    }
     acc.evaluations += 1;
     let targets = ["", "/sub", "/dangling", "/sub/dangling", "/loop_a", "/sub/loop_a", "/plain.txt", "/self", "/dangling/x", "/loop_a/x", "/new", "/link_to_dir", "/link_to_file", "/link_to_dir/x"];
     let mut log = vec![];
@@ -193,7 +200,7 @@ pub fn hostile_dir_case(a: &Args, idx: u64, acc: &mut Acc) {
         // C12 on disk contents the path API did not create: an occupied create_dir target is classified by what
         // metadata() reports for it (a symlink to a directory IS a directory for every other observer)
         let occupant = if let Op::CreateDir(p) = &op { at(&root, p).metadata().ok().map(|m| m.file_type) } else { None };
-        let r = exec(&root, &op);
+        let r = if use_async { crate::asyncside::aexec(&aroot, &op) } else { exec(&root, &op) };
         if let (Some(ft), Err(e)) = (occupant, &r) {
             let want = if ft == vfs::VfsFileType::Directory { crate::ops::Kind::DirExists } else { crate::ops::Kind::FileExists };
             acc.count("occupied_create_dir_on_prepared_directory", 1);
@@ -211,7 +218,7 @@ pub fn hostile_dir_case(a: &Args, idx: u64, acc: &mut Acc) {
         acc.steps += 1;
         if let Err(e) = &r {
             if let Some(p) = &e.panic {
-                report(acc, &format!("physical-hostile-dir:{}", op.name()), "phys", p, J::obj().set("tag", J::s("c13-hostile-dir")).set("seed", J::i(a.seed)).set("history", J::i(idx)).set("prepared", J::arr(prepared.iter().map(J::s))).set("log", J::arr(log.iter().map(J::s))), idx);
+                report(acc, &format!("{}physical-hostile-dir:{}", if use_async { "async-" } else { "" }, op.name()), "phys", p, J::obj().set("tag", J::s("c13-hostile-dir")).set("seed", J::i(a.seed)).set("history", J::i(idx)).set("prepared", J::arr(prepared.iter().map(J::s))).set("log", J::arr(log.iter().map(J::s))), idx);
                 break;
             }
         }
